@@ -1244,3 +1244,52 @@ func (c *Ctx) rulePartialField(rule string, in func(*ssa.Function) bool) int {
 	}
 	return n
 }
+
+// ruleCodeUnits (T7): the length of a string that was decoded from UTF-16 is a
+// count of UTF-8 bytes, not of the 2-byte code units it occupied on the wire.
+// An offset, bound or size computed from len() of such a string is wrong for
+// every character outside ASCII.
+func (c *Ctx) ruleCodeUnits(rule string, in func(*ssa.Function) bool, decodedFields map[string]bool) int {
+	n := 0
+	counts := map[string]int{}
+	for _, s := range c.collectSinks() {
+		if in != nil && !in(s.fn) {
+			continue
+		}
+		bad := ""
+		for _, subj := range s.subjects {
+			if subj == nil {
+				continue
+			}
+			for v := range c.sliceOf(subj) {
+				lc, ok := v.(*ssa.Call)
+				if !ok || ir.CallID(lc) != "builtin.len" || !types.Identical(lc.Call.Args[0].Type().Underlying(), types.Typ[types.String]) {
+					continue
+				}
+				arg := lc.Call.Args[0]
+				fromUTF16 := decodedFields[ir.FieldID(arg)]
+				for w := range c.sliceOf(arg) {
+					if call, isC := w.(*ssa.Call); isC && ir.CallID(call) == utilPkg+".ParseUtf16Var" {
+						fromUTF16 = true
+					}
+					if decodedFields[ir.FieldID(w)] {
+						fromUTF16 = true
+					}
+				}
+				if fromUTF16 {
+					bad = "len() of a string decoded from UTF-16 (" + ir.AccessPath(arg) + ", at " + c.IPos(lc) + ")"
+				}
+			}
+		}
+		if bad == "" {
+			continue
+		}
+		n++
+		key := ordinalKey(counts, name(s.fn)+":"+s.role)
+		c.R.Violf(rule, name(s.fn), strings.TrimPrefix(key, name(s.fn)+":"), c.IPos(s.instr),
+			"positions in the encoded structure are not computed from the UTF-8 length of a decoded string",
+			"the "+s.role+" here depends on "+bad+": that is its UTF-8 byte count, not the number of UTF-16 code units it took in the input, so the position is wrong for non-ASCII text")
+	}
+	c.R.Infof(rule, "-", "scan", "-", fmt.Sprintf("sizes, bounds and offsets that depend on the length of a UTF-16-decoded string: %d", n))
+	return n
+}
